@@ -2,7 +2,7 @@
    (Termination: every modelled function is a structural recursion over finite strings / lists, as Go's range loops are.) *)
 From Coq Require Import String Ascii List Bool Arith ZArith.
 From CDI Require Import Base SpecModel Parser ParserProofs Annotations AnnotationsProofs Version VersionProofs
-  Paths Oci Apply ApplySpec ApplyProofs Cache CacheProofs InjectSpec InjectProofs NoPanic.
+  Paths Oci Apply ApplySpec ApplyProofs Cache CacheProofs InjectSpec InjectProofs NoPanic Doc Decode Validate ValidateProofs.
 Import ListNotations.
 Open Scope string_scope.
 
@@ -27,6 +27,14 @@ Print Assumptions C08_update_annotations_total.
 Theorem C08_validate_version_total : forall s, validate_version s <> Panic.
 Proof. exact validate_version_total. Qed.
 Print Assumptions C08_validate_version_total.
+(* every document tree used as Spec file content (after the text layer): strict decoding + the whole validation pipeline,
+   incl. null list entries, one-letter names, wrong types in any position; and every typed Spec handed to the writer *)
+Theorem C08_accepts_total : forall d, accepts d <> Panic.
+Proof. exact accepts_total. Qed.
+Print Assumptions C08_accepts_total.
+Theorem C08_validate_spec_total : forall s, validate_spec s <> Panic.
+Proof. exact validate_total. Qed.
+Print Assumptions C08_validate_spec_total.
 (* every OCI spec (unique device paths / mount destinations) with every valid edit list: Apply never dereferences nil *)
 Theorem C08_apply_no_panic : forall host e o,
   wf_initial o = true -> valid_edits e = true -> snd (apply host e o) <> 2.
